@@ -25,6 +25,13 @@ variable {α : Type}
 
 /-- allowed kernels per dispatch site -/
 def classes : List (String × List String) := [
+  ("module0.p_conv", ["reim_from_znx64_bnd50_fma", "reim_from_znx64_ref"]),
+  ("module0.p_fft", ["reim_fft_avx2_fma", "reim_fft_ref"]),
+  ("module0.p_ifft", ["reim_ifft_avx2_fma", "reim_ifft_ref"]),
+  -- the module builds its output conversion for results up to 2^63 (the wide variant): the fast bnd50 variant is NOT allowed here
+  ("module0.p_reim_to_znx", ["reim_to_znx64_avx2_bnd63_fma", "reim_to_znx64_ref"]),
+  ("module0.p_addmul", ["reim_fftvec_addmul_fma", "reim_fftvec_addmul_ref"]),
+  ("module0.mul_fft", ["reim_fftvec_mul_fma", "reim_fftvec_mul_ref"]),
   ("module0.bytes_of_svp_ppol", ["fft64_bytes_of_svp_ppol"]),
   ("module0.bytes_of_vec_znx_big", ["fft64_bytes_of_vec_znx_big"]),
   ("module0.bytes_of_vec_znx_dft", ["fft64_bytes_of_vec_znx_dft"]),
